@@ -475,7 +475,13 @@ impl DeconstructedPat {
                 fields = match data {
                     None => vec![],
                     Some(PatVariantData::Positional(pat)) => {
-                        vec![DeconstructedPat::from_ast_pat(statics, pat)]
+                        let pat = DeconstructedPat::from_ast_pat(statics, pat);
+                        // a void payload has no column (as for named fields below)
+                        if matches!(pat.ty, Type::Void) {
+                            vec![]
+                        } else {
+                            vec![pat]
+                        }
                     }
                     Some(PatVariantData::Named(named)) => {
                         let variant_def = &enum_def.variants[*variant];
